@@ -8,6 +8,7 @@
 #include <stddef.h>
 size_t g_n, g_j;
 #define VOFF(p) ((size_t)__CPROVER_POINTER_OFFSET(p) / sizeof(URI_CHAR))
+#define VBOFF(p) ((size_t)__CPROVER_POINTER_OFFSET(p))
 #define V_ISUNRESERVED(c) (((c) >= _UT('a') && (c) <= _UT('z')) || ((c) >= _UT('A') && (c) <= _UT('Z')) || ((c) >= _UT('0') && (c) <= _UT('9')) \
 	|| (c) == _UT('-') || (c) == _UT('.') || (c) == _UT('_') || (c) == _UT('~'))
 #define V_ISHEXUP(c) (((c) >= _UT('0') && (c) <= _UT('9')) || ((c) >= _UT('A') && (c) <= _UT('F')))
@@ -25,7 +26,7 @@ void h_escape(void) {
 	URI_CHAR *in, *out, *ret;
 	size_t cap;
 	g_n = nondet_size(); g_j = nondet_size();
-	__CPROVER_assume(g_n <= V_NMAX && spaceToPlus <= 1 && normalizeBreaks <= 1 && explicitEnd <= 1);
+	__CPROVER_assume(g_n <= V_NMAX && g_j <= 6 * V_NMAX + 6 && spaceToPlus <= 1 && normalizeBreaks <= 1 && explicitEnd <= 1);
 	in = malloc((g_n + 1) * sizeof(URI_CHAR));
 	__CPROVER_assume(in != NULL);
 	if (!explicitEnd) in[g_n] = 0;              /* NUL-terminated variant: some NUL at index g_n (not necessarily the first) */
@@ -35,11 +36,11 @@ void h_escape(void) {
 	VCOVER(g_n > 2 && normalizeBreaks && explicitEnd, "explicit range of more than two characters, break normalization");
 	ret = URI_FUNC(EscapeEx)(in, explicitEnd ? in + g_n : NULL, out, spaceToPlus ? URI_TRUE : URI_FALSE, normalizeBreaks ? URI_TRUE : URI_FALSE);
 	VPOST("C16", ret != NULL && __CPROVER_same_object(ret, out), "EscapeEx returns a pointer into the output");
-	VPOST("C16", VOFF(ret) <= (normalizeBreaks ? 6 : 3) * g_n, "EscapeEx: output never longer than 3x (6x) the input");
+	VPOST("C16", VBOFF(ret) <= (normalizeBreaks ? 6 : 3) * g_n * sizeof(URI_CHAR), "EscapeEx: output never longer than 3x (6x) the input");
 	VPOST("C16", *ret == 0, "EscapeEx: the returned pointer is the terminator");
-	VPOST("C16", g_j >= VOFF(ret) || V_ISUNRESERVED(out[g_j]) || out[g_j] == _UT('%') || (spaceToPlus && out[g_j] == _UT('+')),
+	VPOST("C16", g_j * sizeof(URI_CHAR) >= VBOFF(ret) || V_ISUNRESERVED(out[g_j]) || out[g_j] == _UT('%') || (spaceToPlus && out[g_j] == _UT('+')),
 		"EscapeEx emits only unreserved characters, '%' triplets and (if requested) '+'");
-	VPOST("C16", !(g_j < VOFF(ret) && out[g_j] == _UT('%')) || (g_j + 2 < VOFF(ret) && V_ISHEXUP(out[g_j + 1]) && V_ISHEXUP(out[g_j + 2])),
+	VPOST("C16", !(g_j * sizeof(URI_CHAR) < VBOFF(ret) && out[g_j] == _UT('%')) || ((g_j + 2) * sizeof(URI_CHAR) < VBOFF(ret) && V_ISHEXUP(out[g_j + 1]) && V_ISHEXUP(out[g_j + 2])),
 		"EscapeEx: every '%' starts a complete triplet with upper-case hex digits");
 }
 
@@ -66,7 +67,7 @@ void h_unescape(void) {
 	buf[g_n] = 0;
 	VCOVER(g_n > 3 && breakConversion == URI_BR_TO_CRLF, "string longer than three characters, CRLF conversion");
 	ret = URI_FUNC(UnescapeInPlaceEx)(buf, plusToSpace ? URI_TRUE : URI_FALSE, (UriBreakConversion)breakConversion);
-	VPOST("C16", ret != NULL && __CPROVER_same_object(ret, buf) && VOFF(ret) <= g_n, "UnescapeInPlaceEx never lengthens the string; returns a pointer into it");
+	VPOST("C16", ret != NULL && __CPROVER_same_object(ret, buf) && VBOFF(ret) <= g_n * sizeof(URI_CHAR), "UnescapeInPlaceEx never lengthens the string; returns a pointer into it");
 	VPOST("C16", *ret == 0, "UnescapeInPlaceEx: the returned pointer is the new terminator");
 	VPOST("C16", URI_FUNC(UnescapeInPlaceEx)(NULL, URI_FALSE, URI_BR_DONT_TOUCH) == NULL, "UnescapeInPlaceEx: NULL => NULL");
 }
